@@ -1,1 +1,20 @@
-//! Shared helpers for the vgov check parts.
+//! Shared helpers for the vgov check parts (property C19).
+//!
+//! * `fixture` — a Nexus over `InMemory` with the bundled profile active, and
+//!   the session `exec` idiom of the repo's `tests/governance.rs`.
+//! * `pop`     — the fixed population (mixed classifications / types) and the
+//!   builder for a *filtered clone* (only the listed elements, masked fields
+//!   blanked).
+//! * `model`   — AuthModel: the decision order re-stated from the
+//!   documentation, for the bounded configuration language. Never calls the
+//!   decision code it is compared with.
+//! * `actions` — the control-plane action alphabet, applied to the real
+//!   control plane and to the model side by side.
+//! * `battery` — the read battery (KQL / META) and how answers are
+//!   canonicalised for a relational comparison between two Nexus instances.
+
+pub mod actions;
+pub mod battery;
+pub mod fixture;
+pub mod model;
+pub mod pop;
